@@ -70,16 +70,18 @@ func (vm *varyMatcher) VaryHeadersMatch(entries ResponseRefs, reqHdr http.Header
 }
 
 func (vm *varyMatcher) varyHeadersMatchOne(entry *ResponseRef, reqHeader http.Header) bool {
-	if entry.Vary == "*" {
-		return false // Vary: "*" never matches
+	for field := range TrimmedCSVSeq(entry.Vary) {
+		if field == "*" {
+			return false // Vary: "*" (also as a list member) never matches
+		}
 	}
 	for field, value := range entry.VaryResolved {
 		reqValues := reqHeader[field]
 		// an empty value is comparable and means "no variation"
 		reqValue := ""
 		if len(reqValues) > 0 {
-			// NOTE: The policy of this cache is to use just the first header line
-			reqValue = vm.hvn.NormalizeHeaderValue(field, reqValues[0])
+			// Several field lines form one combined value (RFC 9110 §5.3)
+			reqValue = vm.hvn.NormalizeHeaderValue(field, strings.Join(reqValues, ", "))
 		}
 		if reqValue != value {
 			return false
